@@ -414,6 +414,9 @@ func runC10(c *kit.Ctx) {
 		if dt == nil {
 			return "?no DeleteType store"
 		}
+		if dependsOnCarried(dt, rg) {
+			return "?the kind written for one family depends on what was decided for an earlier family (loop-carried)"
+		}
 		if ph, ok := dt.(*ssa.Phi); ok {
 			if r, ok := env[ph]; ok {
 				dt = r
@@ -438,6 +441,9 @@ func runC10(c *kit.Ctx) {
 		}
 		if mt == nil {
 			return "?no appendCellblock call"
+		}
+		if dependsOnCarried(mt, rg) {
+			return "?the kind written for one family depends on what was decided for an earlier family (loop-carried)"
 		}
 		if ph, ok := mt.(*ssa.Phi); ok {
 			if r, ok := env[ph]; ok {
@@ -530,6 +536,11 @@ func runC10(c *kit.Ctx) {
 	}
 
 	// ---- R3 ---------------------------------------------------------------
+	if mtp := p.Func("region", "multi", "toProto"); mtp != nil {
+		// the cells written for a call are consumed by that call's action (batch level)
+		serialisedCallGetsAction(c, mtp)
+	}
+
 	c.StartRule("R3", "size function = bytes written = header lengths; reader's overhead constant = writer's", 5)
 	eng := bounds.New(p)
 	eng.CopyAsLenSrc = true
@@ -1038,4 +1049,61 @@ func writerEvents(app *ssa.Function, cbsParam *ssa.Parameter, eng *bounds.Engine
 		ok = false
 	}
 	return
+}
+
+// dependsOnCarried: v (a value used inside the loop over the families whose inner loop is inner)
+// depends, through phis and arithmetic, on a variable that an earlier iteration of that outer loop
+// may have changed: a phi at the outer loop's head with an input from inside the loop other than
+// itself.
+func dependsOnCarried(v ssa.Value, inner *ssa.Range) bool {
+	// the outer loop head: the innermost loop head dominating the inner range that is a range-over-map head
+	var hdr *ssa.BasicBlock
+	for b := inner.Block(); b != nil; b = b.Idom() {
+		for _, in := range b.Instrs {
+			if nx, ok := in.(*ssa.Next); ok {
+				if rg, ok := nx.Iter.(*ssa.Range); ok && rg != inner {
+					hdr = b
+				}
+			}
+		}
+		if hdr != nil {
+			break
+		}
+	}
+	if hdr == nil {
+		return false
+	}
+	seen := map[ssa.Value]bool{}
+	var walk func(v ssa.Value, depth int) bool
+	walk = func(v ssa.Value, depth int) bool {
+		if v == nil || seen[v] || depth > 12 {
+			return false
+		}
+		seen[v] = true
+		switch x := v.(type) {
+		case *ssa.Phi:
+			if x.Block() == hdr {
+				for i, e := range x.Edges {
+					if hdr.Dominates(hdr.Preds[i]) && e != ssa.Value(x) {
+						return true
+					}
+				}
+			}
+			for _, e := range x.Edges {
+				if walk(e, depth+1) {
+					return true
+				}
+			}
+		case *ssa.BinOp:
+			return walk(x.X, depth+1) || walk(x.Y, depth+1)
+		case *ssa.UnOp:
+			return walk(x.X, depth+1)
+		case *ssa.Convert:
+			return walk(x.X, depth+1)
+		case *ssa.ChangeType:
+			return walk(x.X, depth+1)
+		}
+		return false
+	}
+	return walk(v, 0)
 }
